@@ -234,7 +234,7 @@ def observe(ctx, jobs, name, tally, parallel=6):
     return cases
 
 
-def run(ctx):
+def setup(ctx):
     ctx.rule = ("cases = (dataset, data_vars, ref_var, layouts) run through all operators; a cell tuple is "
                 "non-trivial when it has >= 2 distinct finite values; distinct by (layer count, tuple)")
     ctx.assumptions = [
@@ -246,13 +246,19 @@ def run(ctx):
         "memory layouts are produced with numpy (asfortranarray, strided and reversed views); the strides the "
         "library sees are recorded and handed to the model",
     ]
-    tally = Tally(ctx)
-    if ctx.replay:
-        blob = json.load(open(ctx.replay))
-        cases = observe(ctx, [blob["case"]["job"]], "replay", tally, parallel=1)
-        ctx.sample({"replayed": cases[0].get("tag"), "strides": cases[0].get("strides")})
-        tally.finish()
-        return
+    return Tally(ctx)
+
+
+def replay(ctx, rec):
+    """re-run exactly the recorded dataset through every local operator and the judge"""
+    tally = setup(ctx)
+    cases = observe(ctx, [rec["case"]["job"]], "replay", tally, parallel=1)
+    ctx.sample({"replayed": rec.get("clause"), "tag": cases[0].get("tag"), "strides": cases[0].get("strides")})
+    tally.finish()
+
+
+def run(ctx):
+    tally = setup(ctx)
     thorough = ctx.tier == "thorough"
     rng = random.Random(ctx.seed * 7919 + 17)
 
